@@ -171,6 +171,13 @@ def run(chk):
             exp = 'ok %d %d %s' % (used, sal, ' '.join('%d,%d,%d' % e for e in t))
             if probs is not None and (sprobs != probs or sal != al):
                 chk.tie_broken('oracle:fse-writer', 'the Python description writer and reader disagree on %s' % probs)
+        if spec is not None and spec[2] == len(d) and a == 'err':
+            # the description ends exactly at the end of the input: the implementation reads a full-width field before
+            # giving a bit back and therefore needs one more byte, which every table description inside a frame or a
+            # dictionary has (the bitstream / the next field follows).  Recorded as an observation, not a verdict.
+            chk.cov.setdefault('observations', {}).setdefault('description-without-following-byte-refused', 0)
+            chk.cov['observations']['description-without-following-byte-refused'] += 1
+            continue
         if a != exp and len(chk.violations) < 3:
             chk.violation('decoding table for description %s: implementation %s, specification %s' % (hexs(d)[:40], a[:70], exp[:70]),
                           {'component': 'fse-table', 'input': ln, 'probabilities': probs, 'how': 'echo "%s" | _build/cargo/release/zh entropy' % ln})
